@@ -174,7 +174,7 @@ Section Main.
     - intros f o. apply live_at_mk. exact Hnd.
     - intros f o x Hx. apply cell_at_mk; assumption.
     - unfold m. rewrite mk_manifest_maxfid. apply wf_maxfid_bound. exact Hm.
-    - apply mk_manifest_wf; assumption.
+    - apply (mk_manifest_wf frows fcontent); assumption.
   Qed.
 
   Definition result_ok (cur : manifest) (o' : op) (m' : manifest) (e : effect) : Prop :=
@@ -265,7 +265,7 @@ Section Main.
     set (news := fst (assign_ids 0 frs)) in *.
     assert (Hnd : NoDup (ids_of news)) by (apply assign_ids_NoDup; exact (proj1 Hn)).
     assert (Hwf : forall f, In f news -> wf_frag f) by (intros f Hf; exact (assigned_wf frows frs 0 f Hn Hf)).
-    assert (W0 : wf_manifest (mk_manifest cur s news [])) by (apply mk_manifest_wf; assumption).
+    assert (W0 : wf_manifest (mk_manifest cur s news [])) by (apply (mk_manifest_wf frows fcontent); assumption).
     assert (W : wf_manifest m') by (destruct c; inversion Hb; subst; exact W0).
     split; [exact W | split; [exact I|]]. eexists. split; [reflexivity|].
     unfold Model_Txn.table_eq. rewrite (abs_maxfid _ W), (abs_maxfid _ Hw). fold news.
@@ -299,10 +299,11 @@ Section Main.
         rewrite <- E. apply in_map. exact Hg.
       - exact (IH Hr). }
     assert (W : wf_manifest (mk_manifest cur (m_schema cur) frs (retain_relevant_indices (m_indices cur) (m_schema cur) frs))).
-    { apply mk_manifest_wf; [exact Hnd' | | exact Hs]. intros f Hf. rewrite Efrs in Hf. apply filter_In in Hf as [Hf _]. exact (Hwf f Hf). }
+    { apply (mk_manifest_wf frows fcontent); [exact Hnd' | | exact Hs]. intros f Hf. rewrite Efrs in Hf. apply filter_In in Hf as [Hf _]. exact (Hwf f Hf). }
     split; [exact W | split; [intros u c []|]]. eexists. split; [reflexivity|].
-    unfold Model_Txn.table_eq. rewrite (abs_maxfid _ W), (abs_maxfid _ Hw).
+    unfold Model_Txn.table_eq.
     cbn [Model_Txn.abs t_schema t_maxfid t_config t_live t_cell drop_rows m_schema m_config].
+    rewrite (max_fragment_id_wf _ (wf_maxfid_of _ W)), (max_fragment_id_wf _ Hm).
     assert (Hfind : forall f, find_frag f frs = if negb (memN f ids) then find_frag f (m_frags cur) else None).
     { intros f. rewrite Efrs. apply (find_frag_filter (fun i => negb (memN i ids))). }
     split; [reflexivity | split; [|split; [reflexivity | split]]].
@@ -313,9 +314,59 @@ Section Main.
       + rewrite Hm in Efrs. cbn in Efrs. rewrite Efrs, Hm. reflexivity.
     - intros f o. rewrite live_at_mk by exact Hnd'. unfold Model_Txn.live_at. rewrite Hfind.
       destruct (memN f ids); cbn [negb]; [rewrite andb_false_r; reflexivity | rewrite andb_true_r; reflexivity].
-    - intros f o x _ Hx. rewrite cell_at_mk by (try exact Hnd'; apply Hs; exact Hx). unfold Model_Txn.cell_at. rewrite Hfind.
-      destruct (memN f ids) eqn:Em; cbn [negb]; [|reflexivity].
-      (* a dropped fragment has no live row, so the clause is vacuous; but table_eq asks for equality only on live rows *)
-      reflexivity.
+    - intros f o x Hl Hx. rewrite live_at_mk in Hl by exact Hnd'. unfold Model_Txn.live_at in Hl. rewrite Hfind in Hl.
+      rewrite cell_at_mk by (try exact Hnd'; apply Hs; exact Hx). unfold Model_Txn.cell_at. rewrite Hfind.
+      destruct (memN f ids) eqn:Em; cbn [negb] in *; [discriminate | reflexivity].
+  Qed.
+
+
+  (* ---------------------------------------------------------------- Append *)
+  Lemma eff_append : forall cur frs m', wf_manifest cur -> new_frags_ok frs ->
+    covers_nonnull (m_schema cur) frs = true ->
+    build_manifest cur (Append frs) = Ok m' -> result_ok cur (Append frs) m' (EAppend frs).
+  Proof.
+    intros cur frs m' Hw Hn Hcov Hb. pose proof Hw as [Hnd [Hwf [Hs Hm]]].
+    set (news := fst (assign_ids (next_of cur) frs)).
+    assert (Em' : m' = mk_manifest cur (m_schema cur) (m_frags cur ++ news) (m_indices cur)).
+    { pose proof (build_append cur frs) as Q. fold news in Q. congruence. }
+    clear Hb. subst m'.
+    assert (Hnd' : NoDup (ids_of (m_frags cur ++ news))).
+    { apply (NoDup_cur_news frows cur (m_frags cur) frs Hw (proj1 Hn) Hnd). auto. }
+    assert (Hdisj : forall i, In i (ids_of news) -> ~ In i (ids_of (m_frags cur))).
+    { intros i Hi. exact (fresh_disjoint frows cur frs i Hw (proj1 Hn) Hi). }
+    assert (W : wf_manifest (mk_manifest cur (m_schema cur) (m_frags cur ++ news) (m_indices cur))).
+    { apply (mk_manifest_wf frows fcontent); [exact Hnd' | | exact Hs]. intros f Hf. apply in_app_or in Hf as [Hf | Hf];
+        [exact (Hwf f Hf) | exact (assigned_wf frows frs _ f Hn Hf)]. }
+    split; [exact W | split; [exact I|]].
+    unfold Model_Txn.apply_effect. cbn [Model_Txn.abs t_schema]. rewrite Hcov. eexists. split; [reflexivity|].
+    unfold Model_Txn.table_eq, add_frags.
+    cbn [Model_Txn.abs t_schema t_maxfid t_config t_live t_cell m_schema m_config].
+    fold (next_of cur). fold news.
+    split; [reflexivity | split; [|split; [reflexivity | split]]].
+    - rewrite maxfid_mk. apply (maxfid_kept_news frows cur (m_frags cur) news Hw). auto.
+    - intros f o. rewrite live_at_mk by exact Hnd'. unfold Model_Txn.live_at. rewrite (find_kept_news _ _ f Hdisj).
+      destruct (find_frag f news); reflexivity.
+    - intros f o x _ Hx. rewrite cell_at_mk by (try exact Hnd'; apply Hs; exact Hx). unfold Model_Txn.cell_at.
+      rewrite (find_kept_news _ _ f Hdisj). destruct (find_frag f news); reflexivity.
+  Qed.
+
+  Lemma covers_incl : forall s s' frs, incl s' s -> covers_nonnull s frs = true -> covers_nonnull s' frs = true.
+  Proof.
+    intros s s' frs Hi H. unfold covers_nonnull in *. rewrite forallb_forall in *. intros f Hf. specialize (H f Hf).
+    rewrite forallb_forall in *. intros fl Hfl. apply H. apply Hi. exact Hfl.
+  Qed.
+
+  Lemma chain_append_schema : forall mr ops cur frs, Chain mr ops cur ->
+    (forall o, In o ops -> check_append o = VOk) ->
+    (forall o, In o ops -> match o with Merge _ s => covers_nonnull s frs = true | _ => True end) ->
+    covers_nonnull (m_schema mr) frs = true -> covers_nonnull (m_schema cur) frs = true.
+  Proof.
+    intros mr ops cur frs Hc. induction Hc as [m | m o m1 ops m' Hstep Hw1 Hc IH]; intros Hv Hcl H0; [exact H0|].
+    apply IH; [intros o' Ho'; apply Hv; right; exact Ho' | intros o' Ho'; apply Hcl; right; exact Ho'|].
+    pose proof (Hv o (or_introl eq_refl)) as Hvo. pose proof (Hcl o (or_introl eq_refl)) as Hclo.
+    destruct Hstep as [Hb Hg _ | v Ev]; [|subst o; discriminate].
+    rewrite (build_schema _ _ _ Hb). destruct o; try exact H0; try discriminate.
+    - exact Hclo.
+    - destruct Hg as [Hi _]. exact (covers_incl _ _ _ Hi H0).
   Qed.
 End Main.
